@@ -356,6 +356,8 @@ fn built_seeds(crypto: bool, max_len: usize) -> Vec<Seed> {
 /// verification with them.
 fn boundary_attr_seeds() -> Vec<Seed> {
     use crate::c02_cms as cms;
+    #[allow(unused_imports)]
+    use crate::c02_cms::MftEntry as _;
     use rpki::repository::cert::{KeyUsage, Overclaim, TbsCert};
     use rpki::repository::resources::{AsResources, IpResources};
     use rpki::repository::x509::{Time, Validity};
@@ -406,6 +408,21 @@ fn boundary_attr_seeds() -> Vec<Seed> {
         Some(out)
     });
     let mut seeds = Vec::new();
+    // manifest contents (independent encoder) whose file names sit on the edges of
+    // what the decoder admits: empty stem, all permitted punctuation, long names
+    {
+        let names: [&[u8]; 6] = [b".roa", b"-.cer", b"_.mft", b"A-_9.CER", b"a.roa", &[b'x'; 260]];
+        let mut entries = Vec::new();
+        for (i, n) in names.iter().enumerate() {
+            let mut name = n.to_vec();
+            if name.len() > 100 {
+                name.extend_from_slice(b".crl");
+            }
+            entries.push(cms::MftEntry::new(&name, &[i as u8; 32]));
+        }
+        let data = cms::manifest_econtent(7, 1_767_225_600, 1_767_312_000, &entries);
+        seeds.push(Seed { name: "built/manifest-content-edge-names".into(), forest: m::parse(&data), data, home: vec![Ep::MftContentDer, Ep::MftContentBer], text: false, plan: Plan::None });
+    }
     if let Ok(Some(list)) = made {
         for (total, data) in list {
             seeds.push(Seed { name: format!("built/sigobj-signed-attrs-{}", total), forest: m::parse(&data), data, home: SIGOBJ.to_vec(), text: false, plan: Plan::None });
